@@ -137,6 +137,40 @@ fn unit_codecs(rv: &RVal, id: &str, rec: &mut Rec) -> Verdict {
         Ok(Err(e)) => return Verdict::fail(format!("C15:hayson:error:{id}"), e),
         Err(p) => return Verdict::fail(format!("C15:hayson:panic:{id}"), p.msg),
     }
+    // the typed Number decoder, and the sources that cannot lend their strings (a reader, a serde_json::Value), and a
+    // writer that puts `unit` before `val` or escapes the unit's characters
+    {
+        use libhaystack::val::Number;
+        let f = match rv {
+            RVal::Num(bits, _) => f64::from_bits(*bits),
+            _ => 0.0,
+        };
+        let own = serde_json::to_string(&hv).unwrap_or_default();
+        let escaped: String = id.chars().map(|c| if c.is_ascii() { c.to_string() } else { let mut b = [0u16; 2]; c.encode_utf16(&mut b).iter().map(|u| format!("\\u{u:04x}")).collect::<String>() }).collect();
+        let docs = [own.clone(), format!("{{\"_kind\":\"number\",\"unit\":\"{id}\",\"val\":{f:?}}}"), format!("{{\"unit\":\"{escaped}\",\"val\":{f:?},\"_kind\":\"number\"}}"), format!("{{\"_kind\":\"number\",\"val\":{f:?},\"unit\":\"{escaped}\"}}")];
+        for doc in docs.iter().filter(|d| !d.is_empty() && f.is_finite()) {
+            let routes: [(&str, Box<dyn Fn() -> Result<Value, String>>); 6] = [
+                ("value/str", Box::new(|| serde_json::from_str::<Value>(doc).map_err(|e| e.to_string()))),
+                ("value/reader", Box::new(|| serde_json::from_reader::<_, Value>(std::io::Cursor::new(doc.as_bytes())).map_err(|e| e.to_string()))),
+                ("value/value", Box::new(|| serde_json::from_str::<J>(doc).and_then(serde_json::from_value::<Value>).map_err(|e| e.to_string()))),
+                ("number/str", Box::new(|| serde_json::from_str::<Number>(doc).map(Value::Number).map_err(|e| e.to_string()))),
+                ("number/reader", Box::new(|| serde_json::from_reader::<_, Number>(std::io::Cursor::new(doc.as_bytes())).map(Value::Number).map_err(|e| e.to_string()))),
+                ("number/value", Box::new(|| serde_json::from_str::<J>(doc).and_then(serde_json::from_value::<Number>).map(Value::Number).map_err(|e| e.to_string()))),
+            ];
+            for (route, fun) in routes.iter() {
+                match guarded(|| fun()) {
+                    Ok(Ok(b)) => {
+                        let v = diff_verdict(&format!("C15:hayson:{route}"), rv, &project(&b), doc, rec);
+                        if v.is_fail() {
+                            return v;
+                        }
+                    }
+                    Ok(Err(e)) => return Verdict::fail(format!("C15:hayson:{route}:error:{id}"), format!("{e} on {doc}")),
+                    Err(p) => return Verdict::fail(format!("C15:hayson:{route}:panic:{id}"), p.msg),
+                }
+            }
+        }
+    }
     // a foreign writer may use any identifier of the unit
     if let RVal::Num(bits, _) = rv {
         let f = f64::from_bits(*bits);
@@ -235,7 +269,7 @@ fn check_non_id(c: &NonId, rec: &mut Rec) -> Verdict {
 }
 
 pub fn run(ctx: &mut Ctx) {
-    ctx.rule("enumerated exhaustively: every `pub static ref ..: Unit` of units_generated.rs (listed by the harness build script, independent of the UNITS map) x every identifier: get_unit(id) returns that very unit with the ids/dimension/scale/offset/quantity units.txt gives; x 8 magnitudes {0,1,-1,0.5,-273.15,1e-7,1e21,12345.678}: Zinc and Hayson round trip (Hayson also with INF, -INF and NaN, which it spells as strings next to the unit), and decoding of a foreign spelling by that identifier (Zinc suffix, Hayson unit member); generated: near-miss and random strings that are no unit's identifier must give None; non-trivial: every (unit, id) pair / every non-identifier; distinct by string");
+    ctx.rule("enumerated exhaustively: every `pub static ref ..: Unit` of units_generated.rs (listed by the harness build script, independent of the UNITS map) x every identifier: get_unit(id) returns that very unit with the ids/dimension/scale/offset/quantity units.txt gives; x 8 magnitudes {0,1,-1,0.5,-273.15,1e-7,1e21,12345.678}: Zinc and Hayson round trip (Hayson also with INF, -INF and NaN, which it spells as strings next to the unit), and decoding of a foreign spelling by that identifier (Zinc suffix, Hayson unit member); Hayson documents in four member orders / escapings through six routes (Value and typed Number x from_str, from_reader, from_value); generated: near-miss and random strings that are no unit's identifier must give None; non-trivial: every (unit, id) pair / every non-identifier; distinct by string");
     ctx.assume("unit-gen/units.txt is the database; an identifier shared by two database units is not asserted to resolve to either");
     enumerate(ctx);
     ctx.run_sub::<NonId>("non-identifier", ctx.tier.pick(80_000, 1_600_000), &non_ids, &check_non_id);
